@@ -231,6 +231,9 @@ pub fn evaluate(sc: &ChanSc, run: &ChanRun) -> Vec<Violation> {
       }
     }
   }
+  if sc.flavour == Flavour::Oneshot && ok_tokens.len() > 1 {
+    vs.push(viol(sc, "C03", "oneshot_second_send_succeeded", &[], format!("{} sends reported success on a oneshot channel: {:?}", ok_tokens.len(), ok_tokens.keys().collect::<Vec<_>>())));
+  }
   for e in evs {
     if let EvK::Observe { len: Some(l), cap: Some(c), .. } = &e.k {
       if l > c {
@@ -248,7 +251,11 @@ pub fn evaluate(sc: &ChanSc, run: &ChanRun) -> Vec<Violation> {
       match &e.k {
         EvK::Recv { out, form, .. } => {
           let own_closed = handle_closed_before(evs, e.handle, false, e.inv);
-          if out.res == RRes::Disconnected && !own_closed {
+          // oneshot: once the single value was taken the channel is finished, whoever still
+          // holds a sender clone
+          let oneshot_done = sc.flavour == Flavour::Oneshot
+            && evs.iter().any(|x| x.ret < e.ret && matches!(&x.k, EvK::Recv { out, .. } if out.res == RRes::Got));
+          if out.res == RRes::Disconnected && !own_closed && !oneshot_done {
             // every sender handle must have had close/drop invoked before this return
             let alive: Vec<u16> = tx_handles.iter().copied().filter(|h| !handle_gone_before(evs, *h, true, e.ret)).collect();
             if !alive.is_empty() {
